@@ -14,6 +14,9 @@ def hash_groups():
         G.append(Group(gid, props, kw.pop('kind', 'P'), S, harness, enforce=enforce, replace=replace,
                        sources=src, defines=d, what=what, **kw))
     g('hash.div', ['C17'], 'h_div', 'cstl_hash_div', what='cstl_hash_div(k,m) < m for all k, all m >= 1')
+    g('hash.mul', ['C17'], 'h_mul', 'cstl_hash_mul', what='cstl_hash_mul(k,m) < m for all k, all m >= 1 (IEEE binary32)',
+      solver='cvc5', timeout=1500, cover_solver=True)
+    g('hash.load', ['C19'], 'h_load', 'cstl_hash_load', what='cstl_hash_load reports size / effective bucket count')
     g('hash.get_bucket_raw', ['C17', 'C03'], 'h_get_bucket_raw', '__cstl_hash_get_bucket',
       what='bucket selection with an arbitrary caller hash: result inside [0,count) of the array or abort',
       covers=['end', 'abort'])
@@ -86,8 +89,58 @@ def vector_groups():
     return G
 
 
+def memory_groups():
+    S = 'spec/s_memory.c'
+    # the spin loop of cstl_weak_ptr_lock is closed by unwinding (with unwinding assertions):
+    # under the sequential precondition "lock flag clear" the first test-and-set succeeds
+    src = ['memory.c']
+    G = []
+
+    def g(name, props, harness, enforce, what, defines=(), **kw):
+        G.append(Group('memory.' + name, props, 'P', S, harness, enforce=enforce, sources=src,
+                       defines=list(defines), what=what, **kw))
+    g('up_reset', ['C05', 'C16'], 'h_up_reset', 'cstl_unique_ptr_reset', 'unique reset: clear once on live memory, then free, pointer re-initialised')
+    g('up_alloc', ['C05', 'C16'], 'h_up_alloc', 'cstl_unique_ptr_alloc', 'unique alloc: old memory destroyed as by reset; new memory or empty (allocation may fail)')
+    g('sp_reset', ['C05'], 'h_sp_reset', 'cstl_shared_ptr_reset', 'shared reset on a block with symbolic counters: hard-1/soft-1, memory dies exactly at hard 1->0, block at soft 1->0')
+    g('sp_reset.empty', ['C05'], 'h_sp_reset', 'cstl_shared_ptr_reset', 'shared reset of an empty pointer is a no-op', defines=['-DVF_SP_EMPTY'])
+    g('wp_reset', ['C05'], 'h_wp_reset', 'cstl_weak_ptr_reset', 'weak reset: soft-1, block released exactly at soft 1->0, memory untouched')
+    g('wp_reset.empty', ['C05'], 'h_wp_reset', 'cstl_weak_ptr_reset', 'weak reset of an empty pointer is a no-op', defines=['-DVF_SP_EMPTY'])
+    g('share.into_empty', ['C05'], 'h_share', 'cstl_shared_ptr_share', 'share into an empty pointer: hard+1, soft+1, same memory', defines=['-DVF_SHARE_INTO_EMPTY'])
+    g('share.empty_src', ['C05'], 'h_share', 'cstl_shared_ptr_share', 'share an empty pointer into an owner: the owner lets go as by reset', defines=['-DVF_SHARE_EMPTY_SRC'])
+    g('weak_from', ['C05'], 'h_weak_from', 'cstl_weak_ptr_from', 'weak-from: soft+1 only', defines=['-DVF_WEAK_FROM'])
+    g('lock', ['C05'], 'h_lock', 'cstl_weak_ptr_lock', 'lock into an empty pointer: an owner iff hard >= 1 (then hard+1/soft+1), else counters restored; lock flag clear again', defines=['-DVF_LOCK'], unwind=2)
+    g('lock.empty_wp', ['C05'], 'h_lock', 'cstl_weak_ptr_lock', 'lock of an empty weak pointer into an owner: the owner lets go as by reset', defines=['-DVF_LOCK_EMPTY_WP'], unwind=2)
+    g('unique', ['C05'], 'h_unique', 'cstl_shared_ptr_unique', 'unique() <=> soft == 1')
+    g('unique.empty', ['C05'], 'h_unique', 'cstl_shared_ptr_unique', 'unique() of an empty pointer is true', defines=['-DVF_SP_EMPTY'])
+    g('get', ['C05'], 'h_get', 'cstl_shared_ptr_get_const', 'get returns the managed address')
+    g('get.empty', ['C05'], 'h_get', 'cstl_shared_ptr_get_const', 'get of an empty pointer is NULL', defines=['-DVF_SP_EMPTY'])
+    g('sp_alloc', ['C05', 'C16'], 'h_sp_alloc', 'cstl_shared_ptr_alloc', 'shared alloc into an empty pointer: sole owner of fresh memory, or empty and nothing leaked under every allocation-failure subset',
+      defines=['-DVF_SP_ALLOC'])
+    import json, os
+    from .run import VERIF
+    fn_of = {'gp_get': 'cstl_guarded_ptr_get_const', 'gp_copy_src': 'cstl_guarded_ptr_copy', 'gp_swap_a': 'cstl_guarded_ptr_swap',
+             'gp_swap_b': 'cstl_guarded_ptr_swap', 'up_get': 'cstl_unique_ptr_get_const', 'up_release': 'cstl_unique_ptr_release',
+             'up_swap_1': 'cstl_unique_ptr_swap', 'up_swap_2': 'cstl_unique_ptr_swap', 'up_reset': 'cstl_unique_ptr_reset',
+             'up_alloc': 'cstl_unique_ptr_alloc', 'sp_get': 'cstl_shared_ptr_get_const', 'sp_unique': 'cstl_shared_ptr_unique',
+             'sp_share_e': 'cstl_shared_ptr_share', 'sp_share_n': 'cstl_shared_ptr_share', 'sp_swap_1': 'cstl_shared_ptr_swap',
+             'sp_swap_2': 'cstl_shared_ptr_swap', 'sp_reset': 'cstl_shared_ptr_reset', 'sp_alloc': 'cstl_shared_ptr_alloc',
+             'wp_from_wp': 'cstl_weak_ptr_from', 'wp_from_sp': 'cstl_weak_ptr_from', 'wp_lock_wp': 'cstl_weak_ptr_lock',
+             'wp_lock_sp': 'cstl_weak_ptr_lock', 'wp_reset': 'cstl_weak_ptr_reset'}
+    ids = json.load(open(os.path.join(VERIF, 'spec', 'stray_memory.json')))
+    for i, eid in enumerate(ids, 1):
+        # "ensures false": the call must not return; the only reachable end is abort()
+        G.append(Group('memory.stray.' + eid, ['C20'], 'P', S, 'h_stray', enforce=fn_of[eid], sources=src,
+                       defines=['-DVF_STRAY=%d' % i], covers=['abort'], unwind=2,
+                       what='stray (bitwise-copied) object in this argument position, any pointer value: %s never returns normally and writes nothing before aborting' % fn_of[eid]))
+    G.append(Group('memory.alloc_reset_leak', ['C05', 'C16'], 'P', S, 'h_alloc_reset_leak', sources=src,
+                   cbmc=['--memory-leak-check'], unwind=2,
+                   what='closed scenario, loop-free, all sizes and every allocation-failure subset: shared alloc, share, weak-from, lock, reset of everything -> nothing leaked, clear called at most once'))
+    return G
+
+
 def all_groups():
     G = []
     G += hash_groups()
     G += vector_groups()
+    G += memory_groups()
     return G
